@@ -68,10 +68,12 @@ def cases(tier, seed):
     # the other two axes concrete and exactly uniform (spacing 1): uniformity then hinges on the symbolic axis
     for n, ax in ([(n, ax) for n in (1, 2, 3) for ax in range(3)] if th else [(2, 1), (1, 0)]):
         out.append(dict(name=f"construct-n{n}-ax{ax}-u", kind="construct", shape=[n if a == ax else -1 for a in range(3)]))
-    for shape in ([[1, 1, 1], [2, 1, 1], [1, 2, 1], [1, 1, 2]] if th else [[1, 1, 1]]):
+    for shape in ([[1, 1, 1], [2, 1, 1]] if th else [[1, 1, 1]]):
         out.append(dict(name="construct-" + "x".join(map(str, shape)), kind="construct", shape=shape))
     if th:
-        out.append(dict(name="construct-2x1x2", kind="construct", shape=[2, 1, 2], cfl=False))
+        out.append(dict(name="construct-1x1x1-excess", kind="construct", shape=[1, 1, 1], only="near-uniform-weak"))
+        for shape in ([1, 2, 1], [1, 1, 2], [2, 1, 2]):
+            out.append(dict(name="construct-" + "x".join(map(str, shape)) + "-fields", kind="construct", shape=shape, cfl=False))
     out.append(dict(name="construct-bad-edges", kind="badedges"))
     for shape in ([[2, 2, 2], [3, 2, 1], [1, 2, 3]] if th else [[2, 2, 2]]):
         out.append(dict(name="measure-" + "x".join(map(str, shape)), kind="measure", shape=shape))
@@ -114,6 +116,9 @@ def _objarr(x):
     return a
 
 
+_SQRT_LOG = []
+
+
 class _NpShim:
     """numpy, except where the analysed module would force symbolic numbers into float arrays."""
 
@@ -135,7 +140,9 @@ class _NpShim:
     @staticmethod
     def sqrt(x):
         if isinstance(x, SymNum):
-            return pysym.sym_sqrt(x)
+            r = pysym.sym_sqrt(x)
+            _SQRT_LOG.append((x, r))  # harness-side record of (argument, root) pairs, used to stage the CFL proof
+            return r
         return np.sqrt(x)
 
 
@@ -334,10 +341,38 @@ def _conjuncts(f):
     return [f]
 
 
+class FastExplorer(pysym.Explorer):
+    """pysym.Explorer that skips the second feasibility query of a branch when the first side is infeasible: the path
+    condition is satisfiable (invariant; the assumptions are shown satisfiable by the vacuity twins), so the other
+    side is feasible.  Matters for ``x / (c*sqrt(a))``: "c*sqrt(a) != 0 is satisfiable" needs a nonlinear model
+    (seconds, erratic), "c*sqrt(a) == 0 is unsatisfiable" is immediate."""
+
+    def branch(self, cond):
+        cond = z3.simplify(cond)
+        if z3.is_true(cond):
+            return True
+        if z3.is_false(cond):
+            return False
+        if len(self.decisions) < len(self.prefix):
+            return super().branch(cond)
+        r1, _ = self._sat([cond])
+        if r1 == z3.unsat:
+            feas = [False]
+        else:
+            r2, _ = self._sat([z3.Not(cond)])
+            feas = [True] + ([False] if r2 != z3.unsat else [])
+        d = feas[0]
+        for other in feas[1:]:
+            self.todo.append(self.decisions + [other])
+        self.decisions.append(d)
+        self.pc.append(cond if d else z3.Not(cond))
+        return d
+
+
 def _explore(c, name, fn, post, assume, replay, key, max_paths):
     """Case.sym_explore, except that a conjunctive post-condition is proved conjunct by conjunct (small queries; a
     conjunction of linear and nonlinear facts in one query sent z3 astray)."""
-    ex = pysym.Explorer(assume, max_paths=max_paths, timeout_ms=c.timeout_ms)
+    ex = FastExplorer(assume, max_paths=max_paths, timeout_ms=c.timeout_ms)
 
     def on_path(res, exc, pc):
         parts = _conjuncts(post(res, exc))
@@ -568,6 +603,15 @@ def _o_cfl(A, v, res, exc, slack):
     mins = [A.min([e[i + 1] - e[i] for i in range(len(e) - 1)]) for e in e3]
     dt = A.real(res["dt"])
     c0 = A.n(Fraction(C0))
+    if A.exact and len(res.get("sqrt", ())) == 1:
+        # staged proof for the branch that takes a square root (one direct query mixing the edge inequalities with
+        # the quartic bound made z3's run time erratic): with a = sqrt argument and S = root of the real run,
+        #   (1) the code's per-axis minima are the true minima      (2) a = sum 1/min^2
+        #   (3) dt*c*S = courant_factor                             (4) S > 0
+        # and the lemma "(3), (4), S^2 = a  =>  dt > 0 and (dt*c)^2 * a <= cf^2" is proved once per case (_cfl_lemma).
+        a, S = A.n(res["sqrt"][0][0]), A.n(res["sqrt"][0][1])
+        cm = [A.n(x) for x in res["mins"]]
+        return A.all([A.eq(x, y) for x, y in zip(cm, mins)] + [A.eq(a, sum(1 / (m * m) for m in cm)), A.eq(dt * c0 * S, cf), A.lt(0, S), A.eq(S * S, a)])
     inv = sum(1 / (m * m) for m in mins)
     bound = (cf * (1 + A.n(Fraction(slack)))) if not isinstance(slack, int) else cf * (1 + slack)
     return A.all([A.lt(0, dt), A.le(dt * dt * c0 * c0 * inv, bound * bound)])
@@ -605,11 +649,21 @@ def _case_construct(c, st, G, case):
                     mins=list(g.min_spacings), min=g.min_spacing, shape=g.shape, is_uniform=g.is_uniform, uniform_spacing=us)
 
     def call_cfl(v):
-        return dict(dt=build(v).cfl_time_step(v["cf"]))
+        g = build(v)
+        del _SQRT_LOG[:]
+        dt = g.cfl_time_step(v["cf"])
+        return dict(dt=dt, sqrt=list(_SQRT_LOG), mins=list(g.min_spacings))
+
+    # lemma closing the staged CFL proof of _o_cfl (fresh variables: holds for every run)
+    ldt, lc, lS, lcf, la = z3.Reals("lemma_dt lemma_c lemma_S lemma_cf lemma_a")
+    c.prove("lemma: dt*c*S = cf, S > 0, S^2 = a, cf > 0, c > 0  =>  dt > 0 and (dt*c)^2*a <= cf^2", z3.And(ldt > 0, ldt * ldt * lc * lc * la <= lcf * lcf),
+            [ldt * lc * lS == lcf, lS > 0, lS * lS == la, lcf > 0, lc > 0])
 
     inputs = dict(e=e3, cf=cf)
-    check(c, st, "post_init", "RectilinearGrid.__post_init__", inputs, assume + ccf, call, _o_construct)
+    only = case.get("only")
     c.witness("twin: strictly increasing edges", z3.BoolVal(True), assume + ccf)
+    if only is None:
+        check(c, st, "post_init", "RectilinearGrid.__post_init__", inputs, assume + ccf, call, _o_construct)
     if not case.get("cfl", True):
         return
     # the CFL bound as stated (relative 1e-9 for the float constants), by regime of the (oracle-side) uniformity predicate
@@ -622,7 +676,9 @@ def _case_construct(c, st, G, case):
     if all(n != 0 for n in shape):
         regimes += [("exactly uniform", [exact], "exactly-uniform", tight),
                     ("uniform within 1e-4, bound up to 1.001e-4", [uni], "near-uniform-weak", loose),
-                    ("uniform within 1e-4", [uni], "near-uniform", tight)]
+                    ("uniform within 1e-4", [uni], "near-uniform", Fraction(1, 10**6))]  # 1e-6: witnesses that survive the float replay
+    # the "weak" regime only quantifies the excess of the near-uniform finding (slow nonlinear query): its own thorough case
+    regimes = [r for r in regimes if (r[2] == only if only else r[2] != "near-uniform-weak")]
     for nm, extra, ksfx, slack in regimes:
         c.witness(f"twin: regime '{nm}' is inhabited", z3.And(*extra), assume + ccf)
         check(c, st, f"cfl_time_step[{nm}]", f"RectilinearGrid.cfl_time_step:{ksfx}", inputs, assume + ccf + extra, call_cfl,
